@@ -61,6 +61,13 @@ class Flat:
     def subtree(self, s):
         return list(range(s, s + self.st(s)["size"]))
 
+    def ancestors(self, s):
+        out = []
+        while self.st(s)["parent"]:
+            s = self.st(s)["parent"]
+            out.append(s)
+        return out
+
 
 def tla_shape(node):
     k, sg, headed, subs = norm(node)
